@@ -144,7 +144,7 @@ def run(ctx):
         from monkeytype.stubs import build_module_stubs_from_traces
         for mn in ("c14same_a", "c14same_b"):
             with open(os.path.join(fx.dir, mn + ".py"), "w") as f_:
-                f_.write("def total(x):\n    return x\n\nclass K:\n    def run(self, y):\n        return y\n")
+                f_.write("def total(x):\n    return x\n\ndef Total(x):\n    return x\n\nclass K:\n    def run(self, y):\n        return y\n\nclass k:\n    def run(self, y):\n        return y\n")
         importlib.invalidate_caches()
         ma, mb = importlib.import_module("c14same_a"), importlib.import_module("c14same_b")
         trs = [CallTrace(ma.total, {"x": int}, int), CallTrace(ma.total, {"x": str}, str), CallTrace(ma.K.run, {"y": bytes}, bytes),
@@ -159,6 +159,18 @@ def run(ctx):
             H.violation("monkeytype.stubs:build_module_stubs_from_traces", "order-dependent:same-qualname-two-modules:%d" % len(seen),
                         "the stubs of two modules that define a function of the same qualified name depend on the order in which their traces arrive",
                         {"traces": [repr(t) for t in trs]}, [list(k_) for k_ in list(seen)[:3]])
+        # ---- names that differ only in case (functions total / Total, classes K / k) in one module
+        H.section("names differing only in case", "functions `total` / `Total` and classes `K` / `k` of one module, every arrival order of their 5 traces: one stub", "120 permutations")
+        trs = [CallTrace(ma.total, {"x": int}, int), CallTrace(ma.Total, {"x": str}, str), CallTrace(ma.K.run, {"y": bytes}, bytes), CallTrace(ma.k.run, {"y": bool}, bool),
+               CallTrace(ma.Total, {"x": float}, float)]
+        seen = {}
+        for perm in itertools.permutations(trs):
+            seen.setdefault(canon(build_module_stubs_from_traces(list(perm), 0)["c14same_a"].render()), perm)
+        if len(seen) == 1:
+            H.ok("case-only-names", sample={"stub": list(seen)[0][-160:]})
+        else:
+            H.violation("monkeytype.stubs:ModuleStub.render", "order-dependent:case-only-names:%d" % len(seen), "the stub of a module with names differing only in case depends on the order in which traces arrive",
+                        {"traces": [repr(t) for t in trs]}, [k_[-200:] for k_ in list(seen)[:3]])
         for mn in ("c14same_a", "c14same_b"):
             sys.modules.pop(mn, None)
         # ---- raw duplicates beyond the query limit must not crowd out distinct traces
